@@ -30,7 +30,7 @@ INFO = dict(
   stubs=['fake TCP layer + scripted peers (3.9, 3.10)', 'virtual loop, timer/EMA math stubs, random for the ping interval (symbolic)'],
   assumptions=['A1-A4'],
 )
-EXPECT_COVERS = ['serial:connect-refused', 'serial:io-error', 'serial:eof', 'serial:timeout-reconnect-ok', 'serial:timeout-reconnect-refused',
+EXPECT_COVERS = ['mux:request-during-failing-open', 'mux:request-during-successful-open', 'serial:request-during-failing-open', 'serial:request-during-successful-open', 'serial:connect-refused', 'serial:io-error', 'serial:eof', 'serial:timeout-reconnect-ok', 'serial:timeout-reconnect-refused',
                  'mux:connect-refused', 'mux:io-error', 'mux:eof', 'mux:ping-silence', 'serial:clean', 'mux:clean']
 
 
@@ -42,7 +42,9 @@ def jobs(tier):
         dict(name='mux-connect', kind='mux', sc='connect', cost=10),
         dict(name='mux-io-fault', kind='mux', sc='io', n=2, cost=500),
         dict(name='mux-eof', kind='mux', sc='eof', n=2, cost=500, shards=4, shard_depth=2),
-        dict(name='mux-ping-silence', kind='mux', sc='ping', n=1, cost=100)]
+        dict(name='mux-ping-silence', kind='mux', sc='ping', n=1, cost=100),
+        dict(name='mux-request-during-open', kind='mux', sc='duringopen', cost=200),
+        dict(name='serial-request-during-open', kind='serial', sc='duringopen', cost=200)]
   if tier != 'quick':
     js += [dict(name='mux-eof-n3', kind='mux', sc='eof', n=3, cost=5000, shards=16, shard_depth=4),
            dict(name='mux-io-fault-n3', kind='mux', sc='io', n=3, cost=5000)]
@@ -116,6 +118,32 @@ def make_body(job):
         check('connect.open-succeeded', ar.ready() and ar.successful() and t.state == ChannelState.Open)
         check('connect.no-fault', not faults)
       probe(kind, t, script, 'connect')
+      t.Close()
+      return
+    if sc == 'duringopen':
+      # a request issued while Open() is still in progress; the open then succeeds, is refused, or (mux) the
+      # first ping is never answered
+      outcome = choose('open_outcome', 3 if kind == 'mux' else 2)      # 0 ok, 1 refused, 2 ping unanswered
+      d = fresh_real('connect_delay', 0, 3, lo_strict=True)
+      script = netm.Script(plan=lambda i, p: ('reply', 0))
+      if outcome == 2: script.ping_plan = lambda i, p: ('never',)
+      e.net.endpoint('a', 1, peer=lambda s: Peer(s, script), connect='refuse' if outcome == 1 else 'ok', connect_delay=d)
+      t, faults = new_transport(kind, e)
+      ar = t.Open()
+      at = fresh_real('request_at', 0, 3)
+      terms = []
+      def issue():
+        terms.append(send(kind, t, 'early'))
+      gevent.spawn_later(at, issue)
+      gevent.sleep(15)
+      check('duringopen.request-issued', len(terms) == 1)
+      if terms:
+        check('duringopen.exactly-one-outcome', len(terms[0].got) == 1)
+      cover(kind + (':request-during-successful-open' if outcome == 0 else ':request-during-failing-open'))
+      if outcome != 0:
+        check('duringopen.reports-closed', t.state == ChannelState.Closed)
+      probe(kind, t, script, 'duringopen')
+      check('no-greenlet-error', not vtime.ERRORS)
       t.Close()
       return
     n = job.get('n', 1)
